@@ -9,7 +9,7 @@ def option_tag_sim(f, track):
     tags_at = {}
 
     def tag_of_rv(rv, tags):
-        if rv['k'] == 'agg' and rv.get('adt') == 'std::option::Option':
+        if rv['k'] == 'agg' and rv.get('adt') in ('std::option::Option', 'std::result::Result'):
             return rv['variant']
         if rv['k'] == 'use' and rv['a']['k'] in ('copy', 'move') and not rv['a']['place']['p']:
             return tags.get(rv['a']['place']['l'])
@@ -38,39 +38,23 @@ def option_tag_sim(f, track):
     def on_stmt(bi, i, stmt, st):
         flags, facts = st
         flags = on_stmt_flags(bi, i, stmt, flags)
-        lhs, rv = stmt['lhs'], stmt['rv']
-        if not lhs['p']:
-            key = ('local', lhs['l'])
-            had = [x for x in facts if x[0] == key]
-            if rv['k'] == 'use' and rv['a']['k'] == 'const' and isinstance(rv['a'].get('val'), int) and rv['a'].get('ty') in ('bool', 'u8', 'usize', 'isize', 'u32'):
-                facts = frozenset((set(facts) - set(had)) | {(key, '==', rv['a']['val'])})
-            elif had:
-                facts = frozenset(set(facts) - set(had))
-        return (flags, facts)
+        return sim_on_stmt(f, bi, i, stmt, (flags, facts))
 
     def on_term(bi, t, st):
         flags, facts = st
         if t['k'] == 'call' and not t['dest']['p']:
             l = t['dest']['l']
             flags = frozenset(x for x in flags if not (isinstance(x, tuple) and x[0] == 'tag' and x[1] == l))
-            key = ('local', l)
-            had = [x for x in facts if x[0] == key]
-            if had:
-                facts = frozenset(set(facts) - set(had))
-        return (flags, facts)
+        return sim_on_term(f, bi, t, (flags, facts))
 
     def on_edge(bi, s, v, d, vals, st):
         flags, facts = st
-        tt = f.blocks[bi]['term']
-        if tt['discr']['k'] in ('copy', 'move') and not tt['discr']['place']['p']:
-            key = ('local', tt['discr']['place']['l'])
-            known = [x for x in facts if x[0] == key and x[1] == '==']
-            if known:
-                kv = known[0][2]
-                taken = v == kv if v is not None else kv not in vals
-                return (flags, facts) if taken else None
+        kind, x = sim_discr(f, bi, d, st)
+        if kind == 'const':
+            taken = v == x if v is not None else x not in vals
+            return (flags, facts) if taken else None
         nf = set(facts)
-        for ef in edge_fact(d, v, vals):
+        for ef in edge_fact(x, v, vals):
             if not stable_expr(ef[0], f.facts.fns) or not track(ef[0]):
                 continue
             if not consistent(nf, ef):
@@ -137,15 +121,40 @@ def contains_key(listname, inner_getter):
     return p
 
 
-def check(ctx, rid, fid, reasons, what):
-    """reasons: list of (label, predicate(facts)->bool).  Every None-returning path state must satisfy one."""
+def option_absent(facts, *subs):
+    """an Option-typed place whose rendering contains one of `subs` is None on this path, in any of the idioms
+       x == None, x.is_none(), !x.is_some(), match/if-let on the discriminant"""
+    def on(k):
+        return any(sb in short(k) for sb in subs)
+    for (k, r_, c_) in facts:
+        if not on(k):
+            continue
+        kk = peel(k, unwraps=False)
+        true_ = (r_ == '!=' and c_ == 0) or (r_ == '==' and c_ == 1)
+        false_ = (r_ == '==' and c_ == 0) or (r_ == '!=' and c_ == 1)
+        if is_call(kk, r'PartialEq(<[^>]*>)?>?::eq$|::eq$') and 'None' in short(kk) and true_:
+            return True
+        if is_call(kk, r'PartialEq(<[^>]*>)?>?::ne$|::ne$') and 'None' in short(kk) and false_:
+            return True
+        if is_call(kk, r'Option::<[^>]*>::is_none$') and true_:
+            return True
+        if is_call(kk, r'Option::<[^>]*>::is_some$') and false_:
+            return True
+        if isinstance(kk, tuple) and kk[0] == 'discr' and any(short(peel(kk[1], unwraps=False)).endswith(sb) for sb in subs) and false_:
+            return True
+    return False
+
+
+def check(ctx, rid, fid, reasons, what, silent='None', loud='Some'):
+    """reasons: list of (label, predicate(facts)->bool).  Every None-returning (Err-returning with silent='Err')
+    path state must satisfy one."""
     F = ctx.facts()
     rep = ctx.rep
     f = F.fn(fid)
     rep.saw(f)
     exits = option_tag_sim(f, lambda k: True)
-    nones = [(bi, facts) for (bi, tg, facts) in exits if tg == 'None']
-    somes = [1 for (bi, tg, facts) in exits if tg == 'Some']
+    nones = [(bi, facts) for (bi, tg, facts) in exits if tg == silent]
+    somes = [1 for (bi, tg, facts) in exits if tg == loud]
     unknown = [1 for (bi, tg, facts) in exits if tg == '?']
     used = collections.Counter()
     bad = []
@@ -161,7 +170,7 @@ def check(ctx, rid, fid, reasons, what):
         if not ok_all:
             bad.append(sorted((short(k)[:70], r_, c_) for (k, r_, c_) in facts if not (isinstance(k, tuple) and k[0] == 'local'))[:6])
     rep.check(rid, bool(somes) and not unknown and not bad, fid + ':silence-only-for-stated-reasons',
-              '%s: %d path states return None, reasons %s; unjustified: %d%s' % (what, len(nones), dict(used), len(bad), (' e.g. ' + str(bad[0])) if bad else ''),
+              '%s: %d path states return %s, reasons %s; unjustified: %d%s' % (what, len(nones), silent, dict(used), len(bad), (' e.g. ' + str(bad[0])) if bad else ''),
               '%s:%d' % (f.file, f.line))
 
 
@@ -179,7 +188,38 @@ def list_absent_or(fn):
     return fn
 
 
+def family_mismatch(facts, a_sub, b_sub):
+    """the address variants (discriminants of the Some payloads) of two Option<IpAddr> places differ on this path"""
+    da, db = {}, {}
+    for (k, r_, c_) in facts:
+        if isinstance(k, tuple) and k[0] == 'discr' and '.0' in short(k) and ' as Some)' in short(k):
+            tgt = da if a_sub in short(k) else db if b_sub in short(k) else None
+            if tgt is not None:
+                tgt.setdefault(r_, set()).add(c_)
+    for va in da.get('==', ()):
+        if va in db.get('!=', ()) or any(vb != va for vb in db.get('==', ())):
+            return True
+    for vb in db.get('==', ()):
+        if vb in da.get('!=', ()):
+            return True
+    return False
+
+
+def excluded_all(facts, sub, n):
+    """an enum discriminant containing `sub` is excluded from all n variants: the path is infeasible"""
+    ex = collections.defaultdict(set)
+    for (k, r_, c_) in facts:
+        if isinstance(k, tuple) and k[0] == 'discr' and sub in short(k) and r_ == '!=':
+            ex[k].add(c_)
+    return any(v >= set(range(n)) for v in ex.values())
+
+
 REASONS = {
+    'synackcookie::generate': ('C06: the cookie is computed for every flow with known endpoints', [
+        ('an endpoint field is absent', lambda f: option_absent(f, 'arg1.ip.src', 'arg1.ip.dst', 'arg1.port.src', 'arg1.port.dst')),
+        ('source and destination address families differ', lambda f: family_mismatch(f, 'arg1.ip.src', 'arg1.ip.dst')),
+        ('infeasible (address neither V4 nor V6)', lambda f: excluded_all(f, 'arg1.ip.src', 2)),
+    ]),
     'layer_2::arp::repl': ('C05: only ARP requests for a handled address are answered', [
         ('operation != request', lambda f: neq(f, getter_key('get_operation'), 1)),
         ('target address not handled', lambda f: falsy_call(f, contains_key('self_ip_list', 'get_target_proto_addr'))),
@@ -201,7 +241,7 @@ REASONS = {
         ('unparsable message', lambda f: neq(f, discr_of_call(r'StunPacket::new$'), 0)),
         ('class != request', lambda f: neq(f, lambda k: _s(k).endswith('.class'), 0)),
         ('method != binding', lambda f: neq(f, lambda k: _s(k).endswith('.method'), 1)),
-        ('client address unknown', lambda f: truthy_call(f, lambda k: 'eq(' in _s(k) and ('ip.src' in _s(k) or 'port.src' in _s(k)) and 'None' in _s(k))),
+        ('client address unknown', lambda f: option_absent(f, 'arg3.ip.src', 'arg3.port.src')),
     ]),
     '<proto::dns::query::DNSQuery as proto::dissector::MPacket>::repl': ('C14: IN/A questions are answered', [
         ('class != IN', lambda f: neq(f, lambda k: isinstance(k, tuple) and k[0] == 'discr' and _s(k).endswith('.class)'), 1)),
@@ -217,7 +257,7 @@ REASONS = {
 }
 
 
-def run_for(ctx, rid, fids):
+def run_for(ctx, rid, fids, silent='None', loud='Some'):
     for fid in fids:
         what, reasons = REASONS[fid]
-        check(ctx, rid, fid, reasons, what)
+        check(ctx, rid, fid, reasons, what, silent=silent, loud=loud)
